@@ -61,6 +61,8 @@ def targeted_scripts(rnd):
             full = [rnd.choice(corpus.VALS[ver][m]) for m in metrics]
             for cut in range(len(full)):
                 out.append({"bver": bver, "all": allm, "no_colors": True, "num": rnd.choice(["int", "float"]), "script": [esc(x) for x in full[:cut]]})
+                # ... and Ctrl-C at every prompt index (the answer "\x03" stands for it): the interrupt leaves the builder, nothing is returned
+                out.append({"bver": bver, "all": allm, "no_colors": True, "num": rnd.choice(["int", "float"]), "script": [esc(x) for x in full[:cut] + ["\x03"]], "abort": True})
     return out
 
 
